@@ -495,6 +495,11 @@ func modeClnt(tier string, args []string) {
 		emit("%s", runTagCase(2+r%4, r%2 == 0, r%3 == 0))
 		stat("clnt.sharedtag_cases", 1)
 	}
+	for r := 0; r < rounds*2; r++ {
+		n := 1 + r%4
+		emit("%s", runTagFail(n, r%(n+1)%n, r%2 == 0))
+		stat("clnt.sharedtag_failure_cases", 1)
+	}
 	// the send goroutine caught between receiving a request and reading it when the connection fails
 	for r := 0; r < rounds*4; r++ {
 		n := 1 + r%3
@@ -659,6 +664,69 @@ func runInterleaved(n int, dotu bool) string {
 }
 
 // the pipelined Tag interface: n reads posted under one shared tag, answered in order
+// the pipelined Tag interface when the connection fails: every request handed to the Tag client comes back on
+// the consumer's channel with an error (C10: no outstanding call blocks for ever, none succeeds without a reply);
+// answered requests answered before the failure come back first, with their replies
+func runTagFail(n int, answered int, dotu bool) string {
+	p := newClntPeer(8192, dotu)
+	ch := make(chan *go9p.Req, 32)
+	tag := p.clnt.TagAlloc(ch)
+	fid := p.clnt.FidAlloc()
+	for i := 0; i < n; i++ {
+		if err := tag.Read(fid, uint64(10+40*i), 32); err != nil {
+			return fmt.Sprintf("CF %d %d FAILED 0 WRONG 0 HANG 0 NOTE post-failed", n, answered)
+		}
+	}
+	dl := time.Now().Add(2 * time.Second)
+	for len(p.requests()) < n && time.Now().Before(dl) {
+		time.Sleep(20 * time.Microsecond)
+	}
+	for i, r := range p.requests() {
+		if i >= answered {
+			break
+		}
+		fc, _, err := go9p.Unpack(r, dotu)
+		if err != nil || fc.Type != go9p.Tread {
+			continue
+		}
+		out := go9p.NewFcall(8192)
+		_ = go9p.PackRread(out, []byte(fmt.Sprintf("data-at-%d", fc.Offset)))
+		go9p.SetTag(out, fc.Tag)
+		p.conn.push(append([]byte{}, out.Pkt...))
+	}
+	// let the answered ones be delivered, then the connection breaks
+	got := 0
+	wrong, hang := false, false
+	failed := 0
+	for ; got < answered; got++ {
+		select {
+		case r := <-ch:
+			if r == nil || r.Err != nil || r.Rc == nil || string(r.Rc.Data) != fmt.Sprintf("data-at-%d", r.Tc.Offset) {
+				wrong = true
+			}
+		case <-time.After(2 * time.Second):
+			hang = true
+		}
+	}
+	p.conn.mu.Lock()
+	p.conn.eof = true
+	p.conn.cond.Broadcast()
+	p.conn.mu.Unlock()
+	for ; got < n; got++ {
+		select {
+		case r := <-ch:
+			if r != nil && r.Err != nil {
+				failed++
+			} else {
+				wrong = true
+			}
+		case <-time.After(2 * time.Second):
+			hang = true
+		}
+	}
+	return fmt.Sprintf("CF %d %d FAILED %d WRONG %d HANG %d NOTE -", n, answered, failed, b2i(wrong), b2i(hang))
+}
+
 func runTagCase(n int, dotu bool, oneSegment bool) string {
 	p := newClntPeer(8192, dotu)
 	// the consumer's channel: roomy, or unbuffered with a consumer that is slow to come back (the replies then
